@@ -803,4 +803,20 @@ class Program:
     def nested(self, path):
         """bodies whose def path starts with path + '::' (closures and nested fns)"""
         pre = path + "::"
-        return [b for p, b in self.bodies.items() if p.startswith(pre)]
+        out = [b for p, b in self.bodies.items() if p.startswith(pre)]
+        # closures of helpers that were inlined into `path` live in it now (re-parented by
+        # jbv/inline.py although their def path still names the helper)
+        seen = {id(b) for b in out}
+        for p, b in self.bodies.items():
+            if id(b) in seen or b.kind != "Closure":
+                continue
+            q, n = b, 0
+            while q is not None and q.kind == "Closure" and n < 6:
+                par = getattr(q, "direct_parent", None) or q.parent
+                if par == path:
+                    out.append(b)
+                    seen.add(id(b))
+                    break
+                q = self.bodies.get(par)
+                n += 1
+        return out
